@@ -347,6 +347,13 @@ func (r *Run) Finish() int {
 	if len(m.samples) == 0 {
 		cov["samples"] = []interface{}{"(no sample recorded)"}
 	}
+	if r.Assumptions == nil {
+		r.Assumptions = []string{}
+	}
+	if r.Caps == nil {
+		r.Caps = []string{}
+	}
+	cov["caps_hit"] = r.Caps
 	ev := map[string]interface{}{
 		"property_id": r.ID,
 		"tier":        r.Tier,
